@@ -15,7 +15,7 @@ use passage_packets::login::serverbound as ls;
 use passage_packets::status::clientbound as sc;
 use passage_packets::status::serverbound as ss;
 use passage_packets::{
-    AsyncWritePacket, ChatMode, DisplayedSkinParts, MainHand, ParticleStatus, ReadPacket, ResourcePackResult, State,
+    AsyncReadPacket, AsyncWritePacket, ChatMode, DisplayedSkinParts, MainHand, ParticleStatus, ReadPacket, ResourcePackResult, State,
     WritePacket,
 };
 use serde_json::{Value, json};
@@ -529,6 +529,38 @@ where
             ),
             ReadObs::Pending => cx.rep.inconclusive_fatal("a packet read stayed Pending over an in-memory source"),
             ReadObs::Panic(p) => cx.rep.violation(&format!("panic/decode/{name}"), &format!("{name}: the reader panicked on bytes arriving in pieces: {p}"), json!({"case": case, "panic": p, "body": hex(&ref_body)})),
+        }
+    }
+
+    // (d) the crate's frame reader `read_packet` on the protocol frame followed by the next frame of
+    // the stream: same value, and the stream stands exactly behind the frame afterwards. (The
+    // reader refuses frames above its own fixed 10 000 bytes; those are not offered here.)
+    let frame = wire.frame();
+    if ref_body.len() + 5 <= 10_000 {
+        const NEXT: [u8; 10] = [0x09, 0x04, 0x11, 0x22, 0x33, 0x44, 0x55, 0x66, 0x77, 0x2a];
+        let mut stream = frame.clone();
+        stream.extend_from_slice(&NEXT);
+        let mut cur = Cursor::new(&stream[..]);
+        let seen = drive(cur.read_packet::<T>());
+        let pos = cur.position() as usize;
+        match seen {
+            Run::Done(Ok(d)) => {
+                cx.tally("frame read from a stream with a following frame", name);
+                if !judge(&d) || pos != frame.len() {
+                    cx.rep.violation(
+                        &format!("framed-read/{name}"),
+                        &format!("{name}: read_packet on the protocol frame followed by another frame gives {} and leaves the stream at byte {pos}, the frame ends at byte {}", brief(&d), frame.len()),
+                        json!({"case": case, "clause": "reading a frame yields the value and consumes exactly the frame", "expected": format!("{val:?}"), "observed": format!("{d:?}"), "position": pos, "frame_length": frame.len(), "stream": hex(&stream)}),
+                    );
+                }
+            }
+            Run::Done(Err(e)) => cx.rep.violation(
+                &format!("framed-read/{name}/error"),
+                &format!("{name}: read_packet rejects the protocol frame {}: {e}", short_hex(&frame)),
+                json!({"case": case, "clause": "reading a protocol frame succeeds", "error": e.to_string(), "stream": hex(&stream)}),
+            ),
+            Run::Pending => cx.rep.inconclusive_fatal("read_packet stayed Pending over an in-memory buffer"),
+            Run::Panic(p) => cx.rep.violation(&format!("panic/decode/{name}"), &format!("{name}: read_packet panicked: {p}"), json!({"case": case, "panic": p, "stream": hex(&stream)})),
         }
     }
 
